@@ -372,20 +372,22 @@ class Gen:
             P.ops.add(k)
             if k != "deviator" and rng.random() < 0.75:
                 dest = None   # (the forced programs cover v=m*v, m=m*n, ... ; keep most random products alias free)
+            # operands of the lazy products are named objects or views: the library does not accept a temporary
+            # expression or view there (compile error), so they are leaves
             if k == "matvec":
                 K = rng.randint(2, 3)
-                a, ta = self.expr(P, ("mat", sh[1], K), depth - 2, dest)
-                x, tx = self.expr(P, ("vec", K), depth - 2, dest)
+                a, ta = self.expr(P, ("mat", sh[1], K), 0, dest)
+                x, tx = self.expr(P, ("vec", K), 0, dest)
                 return "(%s) * (%s)" % (a, x), ("matvec", ta, tx)
             if k == "vecmat":
                 K = rng.randint(2, 3)
-                x, tx = self.expr(P, ("vec", K), depth - 2, dest)
-                a, ta = self.expr(P, ("mat", K, sh[1]), depth - 2, dest)
+                x, tx = self.expr(P, ("vec", K), 0, dest)
+                a, ta = self.expr(P, ("mat", K, sh[1]), 0, dest)
                 return "(%s) * (%s)" % (x, a), ("vecmat", tx, ta)
             if k == "matmat":
                 K = rng.randint(2, 3)
-                a, ta = self.expr(P, ("mat", sh[1], K), depth - 2, dest)
-                b, tb = self.expr(P, ("mat", K, sh[2]), depth - 2, dest)
+                a, ta = self.expr(P, ("mat", sh[1], K), 0, dest)
+                b, tb = self.expr(P, ("mat", K, sh[2]), 0, dest)
                 return "(%s) * (%s)" % (a, b), ("matmat", ta, tb)
             e, te = self.expr(P, sh, depth - 1, dest)
             return "%s(%s)" % (k, e), (k, te)
